@@ -37,6 +37,8 @@ THEOREMS = [
     "SleapVerif.C08.matches_optimal",
     "SleapVerif.C08.matches_fixed_eq_asIs_when_valid",
     "SleapVerif.C08.matches_fixed_optimal_when_feasible",
+    "SleapVerif.C08.matches_fixed_lex_optimal",
+    "SleapVerif.C08.matches_any_size_counterexample",
     "SleapVerif.C08.final_classes_eq_components",
     "SleapVerif.C08.grouping_total",
     "SleapVerif.C08.grouping_total_batch",
@@ -106,19 +108,27 @@ def random_tree(rng, n):
     return edges
 
 
-def gen_case(rng, big=False):
+PATTERNS = ["E", "EE", "EEE", "EP", "PE", "PEP", "EPE", "PPE", "EPP", "PEEP", "S", "SP", "PS", "PSP", "SS",
+            "ESP", "NP", "PN", "PNP", "EN"]
+
+
+def gen_case(rng, big=False, pattern=None):
+    """`pattern`: one letter per frame — P populated, E no peak at all, S peaks of a single node type,
+    N peaks only on node types no two of which share an edge (no candidate connection either)."""
     n = rng.choice([2, 2, 3, 3, 4, 5, 6] if not big else [4, 5, 6, 7])
+    if pattern and "N" in pattern:
+        n = max(n, 3)
     edges = random_tree(rng, n)
     stride = rng.choice([1, 2, 2, 4])
     H, W = rng.randrange(3, 10), rng.randrange(3, 10)
-    B = rng.choice([1, 1, 2, 3])
+    B = len(pattern) if pattern else rng.choice([1, 1, 2, 3, 4])
     mode = rng.choice(["noise", "field", "field", "mixed", "zero", "planted", "planted", "planted"])
     kmax = rng.choice([1, 2, 3, 4])
     E = len(edges)
     dirs = [(rng.choice([-1, 0, 1, 0.5, -0.5]), rng.choice([-1, 0, 1, 0.5, -0.5])) for _ in range(E)]
     samples = []
-    for _ in range(B):
-        if rng.random() < 0.12:
+    for fi in range(B):
+        if (pattern[fi] == "E") if pattern else (rng.random() < 0.12):
             samples.append({"peaks": [], "vals": [], "channels": []})
             continue
         if mode == "planted":
@@ -181,6 +191,32 @@ def gen_case(rng, big=False):
             rng.shuffle(perm)
             pts, vals, chs = [pts[i] for i in perm], [vals[i] for i in perm], [chs[i] for i in perm]
         samples.append({"peaks": pts, "vals": vals, "channels": chs})
+    if pattern:
+        for fi, kind in enumerate(pattern):
+            sm = samples[fi]
+            if kind == "P" and len(set(sm["channels"])) < 2:
+                # make sure a populated frame has at least one candidate connection
+                u, v = edges[0]
+                sm["peaks"] += [[1.0, 1.0], [1.0 + 2 * stride, 1.0]]
+                sm["vals"] += [0.5, 0.75]
+                sm["channels"] += [u, v]
+            if kind in "SN":
+                if kind == "S":
+                    keep = {rng.choice(sm["channels"])} if sm["channels"] else {rng.randrange(n)}
+                else:
+                    keep = set()
+                    for u in rng.sample(range(n), n):
+                        if all((u, w) not in edges and (w, u) not in edges for w in keep):
+                            keep.add(u)
+                idx = [i for i, c in enumerate(sm["channels"]) if c in keep]
+                for u in keep:
+                    if not any(sm["channels"][i] == u for i in idx):
+                        sm["peaks"].append([rng.randrange(0, 4 * W * stride) / 4.0, rng.randrange(0, 4 * H * stride) / 4.0])
+                        sm["vals"].append(rng.randrange(1, 33) / 32.0)
+                        sm["channels"].append(u)
+                        idx.append(len(sm["channels"]) - 1)
+                for key_ in ("peaks", "vals", "channels"):
+                    sm[key_] = [sm[key_][i] for i in idx]
     paf = []
     for b in range(B):
         img = []
@@ -357,7 +393,7 @@ def oracle_sample(case, s, mats, impl_matches, min_line, out):
         if len(set(rows)) != len(rows) or len(set(cols)) != len(cols):
             why.append(f"edge {k}: matches are not one-to-one: {K}")
             continue
-        if any(not (i < nr and j < nc) or M[i][j] is None for i, j, _ in K):
+        if any(not (0 <= i < nr and 0 <= j < nc) or M[i][j] is None for i, j, _ in K):
             why.append(f"edge {k}: a match uses a candidate without a score: {K}")
             continue
         if any(M[i][j] != sc for i, j, sc in K):
@@ -404,6 +440,11 @@ def oracle_sample(case, s, mats, impl_matches, min_line, out):
         sc = sum(x for a, _, x in accepted if find(a) == root)
         expected.append((frozenset(ps), sc))
     inst, pvals, iscores = out
+    ni = len(iscores) if getattr(iscores, "ndim", 0) == 1 else -1
+    if getattr(inst, "shape", None) != (ni, n, 2) or getattr(pvals, "shape", None) != (ni, n):
+        why.append(f"output arrays have shapes {getattr(inst, 'shape', None)}, {getattr(pvals, 'shape', None)}, "
+                   f"{getattr(iscores, 'shape', None)} instead of (k,{n},2), (k,{n}), (k,)")
+        return why
     got = []
     used = set()
     for r in range(len(inst)):
@@ -437,6 +478,26 @@ def oracle_sample(case, s, mats, impl_matches, min_line, out):
         if len(set(nodes)) != len(nodes):
             why.append(f"component {sorted(ps)} has two peaks of one node type")
     return why
+
+
+def nt_parts(res, n_tensors, n_samples):
+    """Defensive canonicalisation of a `call(...)` result that should be a tuple of `n_tensors`
+    nested tensors with `n_samples` components each: ('ok', [[np.ndarray]*n_samples]*n_tensors) or
+    ('malformed', description).  Never raises."""
+    try:
+        out = res[1]
+        if not isinstance(out, (tuple, list)) or len(out) < n_tensors:
+            return ("malformed", f"expected {n_tensors} outputs, got {type(out).__name__} of length "
+                                 f"{len(out) if hasattr(out, '__len__') else '?'}")
+        parts = []
+        for t in list(out)[:n_tensors]:
+            comps = list(t.unbind()) if getattr(t, "is_nested", False) else list(t)
+            if len(comps) != n_samples:
+                return ("malformed", f"an output holds {len(comps)} samples for a batch of {n_samples}")
+            parts.append([c.detach().cpu().numpy() for c in comps])
+        return ("ok", parts)
+    except Exception as e:  # noqa
+        return ("malformed", f"{type(e).__name__}: {str(e)[:120]}")
 
 
 def coincident(case, s):
@@ -485,19 +546,24 @@ def impl_case(chk, impl, case, fixed):
     min_line32 = Fraction(float(np.float32(case["min_line_scores"])))
     per = []
     lines = []
+    nE = len(edges)
     for b in range(B):
         s = case["samples"][b]
         pafs, peaks, vals, chs = impl.tensors(case, [b])
         info = {"raise": None}
         q = call(lambda: scorer.score_paf_lines(pafs, peaks, chs))
-        if q[0] == "raise":
-            info["raise"] = ("score_paf_lines",) + q[1:]
+        qp = nt_parts(q, 3, 1) if q[0] == "ok" else None
+        if q[0] == "raise" or qp[0] != "ok":
+            info["raise"] = ("score_paf_lines",) + (q[1:] if q[0] == "raise" else ("MalformedOutput", qp[1]))
             per.append(info)
             lines.append(None)
             continue
-        e_inds = q[1][0][0].numpy().tolist()
-        e_pinds = q[1][1][0].numpy().tolist()
-        l_scores = q[1][2][0].numpy().tolist()
+        e_inds, e_pinds, l_scores = [x[0].tolist() for x in qp[1]]
+        if not (len(e_inds) == len(e_pinds) == len(l_scores)) or any(len(x) != 2 for x in e_pinds):
+            info["raise"] = ("score_paf_lines", "MalformedOutput", "candidate arrays of different lengths")
+            per.append(info)
+            lines.append(None)
+            continue
         info["cands"] = sorted((int(k), int(a), int(c)) for k, (a, c) in zip(e_inds, e_pinds))
         mats = score_mats(case, s, e_inds, e_pinds, l_scores)
         info["mats"] = mats
@@ -505,40 +571,85 @@ def impl_case(chk, impl, case, fixed):
         m = call(lambda: scorer.match_candidates(*q[1]))
         rec = list(impl.rec)
         info["rec"] = rec
-        answers = [a for _, a, _ in rec] + [None] * (len(edges) - len(rec))
+        answers = [a for _, a, _ in rec][:nE] + [None] * max(0, nE - len(rec))
         lines.append(sample_line(fixed, n, edges, float(np.float32(case["min_line_scores"])),
                                  case["min_instance_peaks"], s["channels"], mats, answers))
-        if m[0] == "raise":
-            info["raise"] = ("match_candidates",) + m[1:]
+        mp_ = nt_parts(m, 4, 1) if m[0] == "ok" else None
+        if m[0] == "raise" or mp_[0] != "ok":
+            info["raise"] = ("match_candidates",) + (m[1:] if m[0] == "raise" else ("MalformedOutput", mp_[1]))
             per.append(info)
             continue
-        mk, ms_, md, msc = [x[0].numpy().tolist() for x in m[1]]
+        mk, ms_, md, msc = [x[0].reshape(-1).tolist() for x in mp_[1]]
+        if not (len(mk) == len(ms_) == len(md) == len(msc)):
+            info["raise"] = ("match_candidates", "MalformedOutput", "match arrays of different lengths")
+            per.append(info)
+            continue
         info["matches"] = [[(int(i), int(j), F(sc)) for kk, i, j, sc in zip(mk, ms_, md, msc) if kk == k]
-                           for k in range(len(edges))]
+                           for k in range(nE)]
         g = call(lambda: scorer.group_instances(peaks, vals, chs, *m[1]))
-        if g[0] == "raise":
-            info["raise"] = ("group_instances",) + g[1:]
+        gp = nt_parts(g, 3, 1) if g[0] == "ok" else None
+        if g[0] == "raise" or gp[0] != "ok":
+            info["raise"] = ("group_instances",) + (g[1:] if g[0] == "raise" else ("MalformedOutput", gp[1]))
             per.append(info)
             continue
-        info["out"] = tuple(x[0].numpy() for x in g[1])
+        info["out"] = tuple(x[0] for x in gp[1])
         per.append(info)
-    # ---- whole batch through predict (the glue)
-    impl.rec.clear()
-    full = call(lambda: scorer.predict(*impl.tensors(case, list(range(B)))))
+    # ---- the whole batch through the batch functions and through predict (the glue)
     any_raise = any(p["raise"] for p in per)
+    batch_case = {"case": case}
+    tb = impl.tensors(case, list(range(B)))
+    impl.rec.clear()
+    if not any_raise:
+        # stage by stage: score_paf_lines_batch -> match_candidates_batch, every frame must get its own result
+        qf = call(lambda: scorer.score_paf_lines(tb[0], tb[1], tb[3]))
+        qfp = nt_parts(qf, 3, B) if qf[0] == "ok" else None
+        if qf[0] == "raise" or qfp[0] != "ok":
+            chk.fail("score_paf_lines_batch fails on a batch whose frames are fine one by one: "
+                     + str(qf[1:] if qf[0] == "raise" else qfp[1]), batch_case, None, ["batch_glue"])
+        else:
+            mf = call(lambda: scorer.match_candidates(*qf[1]))
+            mfp = nt_parts(mf, 4, B) if mf[0] == "ok" else None
+            if mf[0] == "raise" or mfp[0] != "ok":
+                chk.fail("match_candidates_batch does not return one match set per frame: "
+                         + str(mf[1:] if mf[0] == "raise" else mfp[1]), batch_case,
+                         {"frames": [len(s_["channels"]) for s_ in case["samples"]]}, ["batch_glue"])
+            else:
+                for b in range(B):
+                    mk, ms_, md, msc = [x[b].reshape(-1).tolist() for x in mfp[1]]
+                    got = [[(int(i), int(j), F(sc)) for kk, i, j, sc in zip(mk, ms_, md, msc) if kk == k]
+                           for k in range(nE)]
+                    if got != per[b]["matches"]:
+                        chk.fail(f"match_candidates_batch: frame {b} of the batch gets matches that are not those "
+                                 "of that frame's peaks", batch_case,
+                                 {"frame": b, "batch": str(got), "alone": str(per[b]["matches"])}, ["batch_glue"])
+    impl.rec.clear()
+    full = call(lambda: scorer.predict(*tb))
     if full[0] == "raise":
-        if not any_raise:
-            chk.disagree("predict(batch) raises iff some sample raises", {"case": case}, full, "ok")
+        known = (full[1] == "ValueError" and "infeasible" in full[2]
+                 and any(coincident(case, s_) for s_ in case["samples"]))
+        chk.fail(f"PAFScorer.predict raises {full[1]}: {full[2]} on a batch of {B} frame(s) with "
+                 f"{[len(s_['channels']) for s_ in case['samples']]} peaks"
+                 + ("" if any_raise else " although every frame groups fine on its own"),
+                 batch_case, full[1:], [SIG] if known else ["batch_glue"])
     else:
+        fp = nt_parts(("ok", tuple(full[1])[:3]), 3, B)
         if any_raise:
-            chk.disagree("predict(batch) raises iff some sample raises", {"case": case}, "ok", [p["raise"] for p in per])
+            chk.disagree("predict(batch) raises iff some sample raises", batch_case, "ok", [p["raise"] for p in per])
+        elif fp[0] != "ok":
+            chk.fail("PAFScorer.predict does not return one instance set per frame: " + fp[1], batch_case,
+                     {"frames": [len(s_["channels"]) for s_ in case["samples"]]}, ["batch_glue"])
         else:
             for b in range(B):
-                for j in range(3):
-                    x, y = full[1][j][b].numpy(), per[b]["out"][j]
-                    if x.shape != y.shape or not np.array_equal(x, y, equal_nan=True):
-                        chk.disagree("predict(batch)[b] == predict(sample b)", {"case": case, "b": b},
-                                     x.tolist(), y.tolist())
+                same = all(fp[1][j][b].shape == per[b]["out"][j].shape and
+                           np.array_equal(fp[1][j][b], per[b]["out"][j], equal_nan=True) for j in range(3))
+                if not same:
+                    outb = tuple(fp[1][j][b] for j in range(3))
+                    why = oracle_sample(case, case["samples"][b], per[b]["mats"], per[b]["matches"], min_line32, outb)
+                    if why:
+                        chk.fail(f"frame {b} of the batch: " + "; ".join(why[:2]), batch_case,
+                                 {"frame": b, "inst": outb[0].tolist()}, ["batch_glue"])
+                    chk.disagree("predict(batch)[b] == predict(sample b)", {"case": case, "b": b},
+                                 [x.tolist() for x in outb], [x.tolist() for x in per[b]["out"]])
     return {"case": case, "per": per, "lines": lines, "min_line32": min_line32}
 
 
@@ -580,7 +691,12 @@ def compare_case(chk, impl, rec, mod, fixed, tag):
         # LsaSpec validation of every recorded scipy call + cost matrix correspondence
         cm = M.get("cm", [])
         pos = 0
-        for k, (mat, ans, exc) in enumerate(info["rec"]):
+        if len(info["rec"]) > len(edges):
+            chk.disagree("one linear_sum_assignment call per edge type", small, len(info["rec"]), len(edges))
+        for k, (mat, ans, exc) in enumerate(info["rec"][:len(edges)]):
+            if mat.ndim != 2 or pos + 2 > len(cm):
+                chk.disagree("cost matrix passed to linear_sum_assignment == costMatrix", small, mat.tolist(), cm)
+                break
             nr, nc = mat.shape
             fm = [[F(mat[i, j]) for j in range(nc)] for i in range(nr)]
             if exc is not None and not (isinstance(exc, ValueError) and "infeasible" in str(exc)):
@@ -768,7 +884,13 @@ def main(chk: Check):
         cases.append(("gen", gen_case(rng)))
     for _ in range(chk.n(60, 600)):
         cases.append(("big", gen_case(rng, big=True)))
+    # frames without any candidate connection before / between / after populated frames, all-empty batches
+    for pat in PATTERNS:
+        for _ in range(chk.n(3, 30)):
+            cases.append(("pattern_" + pat, gen_case(rng, pattern=pat)))
     check_cases(chk, impl, cases, fixed)
+    # report a whole-batch failure first (only the first three failing inputs get a replay file)
+    chk.failing.sort(key=lambda f: 0 if "batch_glue" in f["signatures"] else 1)
     check_assign_cases(chk, impl, [gen_assign_case(rng) for _ in range(chk.n(3000, 20000))])
 
 
@@ -806,7 +928,10 @@ if __name__ == "__main__":
             "compared to the exact rational sum with tolerance 1e-5·(1+Σ|score|)",
             "sorted_edge_inds comes from the C17 model (Toposort.toposort), whose theorems supply the parent-first order",
         ],
-        rule="tree skeletons of 2..7 nodes in random listings x batches of 1..3 samples (empty frames, 0..4 peaks per "
+        rule="tree skeletons of 2..7 nodes in random listings x batches of 1..4 frames, plus every run the frame patterns "
+             "E EE EEE EP PE PEP EPE PPE EPP PEEP S SP PS PSP SS ESP NP PN PNP EN (P populated, E empty, S one node type "
+             "only, N only pairwise non-adjacent node types) through score/match/group_instances_batch and predict "
+             "(empty frames, 0..5 peaks per "
              "node on a 1/4-pixel lattice, peaks outside the PAF extent, peaks coinciding with a peak of another node "
              "type, shuffled channel order) x PAF tensors (noise on a 1/8 lattice, constant fields, mixed, zero) x scorer "
              "parameters (n_points, min_line_scores incl. one equal to an actual score, min_instance_peaks int/float, "
